@@ -38,8 +38,23 @@ func c06Cycle(e c06Ender, r *Rand) lcCycle {
 
 // lcFix makes a script self-consistent (see lifecycle_common.go for why)
 func lcFix(sc *lcScript) {
+	if sc.flood {
+		// with flood control on every line costs ~2 s once the burst is used up: no client pings
+		// and no marker round trips beyond the necessary, or the 10 s budget is the rate limiter's
+		sc.pingMs = 0
+	}
 	for i := range sc.cycles {
 		c := &sc.cycles[i]
+		// a share of the scripted servers behave like real ones: "ERROR :Closing Link" before
+		// they hang up; some send an ERROR line mid-session and carry on (derived from the script,
+		// not from the clock)
+		h := c.closeN*7 + c.inN*3 + c.outN*5 + c.refA + 2*c.refN + 4*c.refD + c.hs + i
+		if c.eof && h%2 == 0 {
+			c.errLine |= 1
+		}
+		if h%4 == 1 && !sc.flood {
+			c.errLine |= 2
+		}
 		if c.cancel {
 			sc.ctx = true
 		}
@@ -178,7 +193,12 @@ func c06Gen(r *Rand, tier string, scale int, emit func(Fields)) {
 		}
 	}
 	var ins []Fields
-	for _, sc := range scripts {
+	// a connect deadline that expires during a dial that then SUCCEEDS (plain proxy.Dialer)
+	for i := 0; i < 3; i++ {
+		d := r.Range(20, 60)
+		ins = append(ins, F("lcslow", d, d+r.Range(40, 120)))
+	}
+	for _, sc := range scripts[:len(scripts)-3] {
 		ins = append(ins, sc.fields())
 	}
 	lcPrefetch(ins, 12)
